@@ -182,7 +182,7 @@ impl G {
 }
 
 pub fn run(tier: &str, seed: u64) -> Sink {
-    let n = if tier == "thorough" { 20000 } else { 2500 };
+    let n = if tier == "thorough" { 10000 } else { 2500 };
     let parts = par_map(n, threads(), |i| {
         let mut sink = Sink::default();
         let mut g = G { r: Rng::new(seed.wrapping_mul(2147483647) ^ (i as u64) ^ 0x9E7), luau: false, depth: 1 + i % 3 };
